@@ -51,7 +51,7 @@ def closed_form(w, seq):
 
 
 def check(rep):
-    coq = fw.coq_check("C08", ["SrcBond"])
+    coq = fw.coq_check("C08", ["SrcBond", "SrcCore", "SrcGen"])
     quick = rep.tier == "quick"
     rnd = random.Random(rep.seed + 8)
     cases, stats = genrun.collect(rep, 120 if quick else 6000, 10 if quick else 300, max_leaves=150 if quick else 2000,
